@@ -27,7 +27,62 @@ def _scratch(repo: str) -> str:
 
 def _apply(entry: dict, root: str) -> tuple[bool, str]:
     """Apply one catalogue entry to the scratch tree; returns (applied, reason)."""
-    if 'patch' in entry:
+    if 'refactor' in entry:
+        # behaviour-preserving AST refactoring of one function: ('rename', local, new) | ('temp',) | ('log',)
+        import ast
+        import copy
+
+        sys.path.insert(0, VERIF)
+        from fv import core as _core
+
+        mod_rel, qual = entry['func']
+        fpath = os.path.join(root, mod_rel)
+        text = open(fpath, encoding='utf-8').read()
+        tree = ast.parse(text)
+        target = None
+        stack = [(tree, '')]
+        while stack:
+            node, prefix = stack.pop()
+            for ch in ast.iter_child_nodes(node):
+                if isinstance(ch, (ast.FunctionDef, ast.AsyncFunctionDef, ast.ClassDef)):
+                    q = f'{prefix}{ch.name}'
+                    if q == qual and not isinstance(ch, ast.ClassDef) and not any('overload' in ast.unparse(d) for d in ch.decorator_list):
+                        target = ch
+                    stack.append((ch, q + '.'))
+                else:
+                    stack.append((ch, prefix))
+        if target is None:
+            return False, f'function {qual} not found in {mod_rel}'
+        new = copy.deepcopy(target)
+        kind = entry['refactor'][0]
+        if kind == 'rename':
+            if entry['refactor'][1] not in _core.own_locals(new):
+                return False, f'local {entry["refactor"][1]} not found in {qual}'
+            _core._rename_local(new, entry['refactor'][1], entry['refactor'][2])
+        elif kind == 'temp':
+            rets = [n for n in ast.walk(new) if isinstance(n, ast.Return) and n.value is not None and not isinstance(n.value, (ast.Name, ast.Constant))]
+            if not rets:
+                return False, 'no return expression'
+            r = rets[-1]
+            for par in ast.walk(new):
+                for f in ('body', 'orelse', 'finalbody'):
+                    seq = getattr(par, f, None)
+                    if isinstance(seq, list) and r in seq:
+                        k = seq.index(r)
+                        seq[k:k + 1] = [ast.Assign(targets=[ast.Name(id='outcome_', ctx=ast.Store())], value=r.value, lineno=r.lineno), ast.Return(value=ast.Name(id='outcome_', ctx=ast.Load()))]
+        elif kind == 'log':
+            first = 1 if new.body and isinstance(new.body[0], ast.Expr) and isinstance(new.body[0].value, ast.Constant) else 0
+            new.body.insert(first, ast.parse("LOGGER.debug('checkpoint')").body[0])
+        ast.fix_missing_locations(new)
+        lines = text.split('\n')
+        s0, s1 = target.lineno - 1, target.end_lineno
+        if target.decorator_list:
+            s0 = min(d.lineno for d in target.decorator_list) - 1
+        indent = ' ' * target.col_offset
+        body = '\n'.join(indent + ln if ln else ln for ln in ast.unparse(new).split('\n'))
+        open(fpath, 'w', encoding='utf-8').write('\n'.join(lines[:s0] + [body] + lines[s1:]))
+        files = [mod_rel]
+    elif 'patch' in entry:
         path = entry['patch'] if os.path.isabs(entry['patch']) else os.path.join(VERIF, entry['patch'])
         r = subprocess.run(['patch', '-p1', '-s', '--no-backup-if-mismatch', '-f', '-i', path], cwd=root, stdout=subprocess.PIPE, stderr=subprocess.STDOUT, text=True)
         if r.returncode != 0:
